@@ -677,3 +677,199 @@ def per_file_sorted(file_blocks):
     r = call(D + "_remove_overlaps_from_file", None, file_blocks)
     use(greedy_sorted, sorted(file_blocks, key=lambda b: b.start_line), [])
     return by_start(r)
+
+
+# =================================================================== deduplicate_violations across files (pure lemmas + property)
+def vgroups_ok(groups, violations):
+    return all(grp == [v for v in violations if v.file_path == key] for key, grp in groups)
+
+
+def vhas_group(groups, v):
+    return any(key == v.file_path for key, grp in groups)
+
+
+def v_same_file_cover(x, l):
+    """Some violation of l lies in x's file and stands in the code's overlap relation (finding C03-violation-overlap-length) to x."""
+    return any(voverlap(x, y) and y.file_path == x.file_path for y in l)
+
+
+@lemma(props=["C03"], types=dict(blocks=Violations, k=Str, x=ViolationT), name="v-file-filter-membership")
+def v_file_filter_membership(blocks, k, x):
+    return (len(blocks) == 0 or (ih(v_file_filter_membership, blocks[1:], k, x) and use(v_member_head_tail, blocks, x))) and \
+        (x in [v for v in blocks if v.file_path == k]) == (x in blocks and x.file_path == k)
+
+
+@opaque
+def v_first_hit(l: Violations, x: ViolationT) -> ViolationT:
+    """Witness: the first block of l that overlaps x (x itself if there is none)."""
+    if len(l) == 0:
+        return x
+    if voverlap(x, l[0]):
+        return l[0]
+    return v_first_hit(l[1:], x)
+
+
+@lemma(props=["C03"], types=dict(l=Violations, x=ViolationT), name="v-overlap-witness")
+def v_overlap_witness(l, x):
+    reveal(v_first_hit, l, x)
+    return (len(l) == 0 or (ih(v_overlap_witness, l[1:], x) and use(v_member_head_tail, l, v_first_hit(l, x)))) and \
+        implies(any(voverlap(x, y) for y in l), v_first_hit(l, x) in l and voverlap(x, v_first_hit(l, x)))
+
+
+@lemma(props=["C03"], types=dict(l=Violations, x=ViolationT, w=ViolationT), name="v-same-file-cover-from-witness")
+def v_cover_from_witness(l, x, w):
+    return (len(l) == 0 or (ih(v_cover_from_witness, l[1:], x, w) and use(v_member_head_tail, l, w))) and \
+        implies(w in l and voverlap(x, w) and w.file_path == x.file_path, v_same_file_cover(x, l))
+
+
+@lemma(props=["C03"], types=dict(l1=Violations, l2=Violations), name="v-concat-head-tail")
+def v_concat_head_tail(l1, l2):
+    return implies(len(l1) > 0, (l1 + l2)[0] == l1[0] and (l1 + l2)[1:] == l1[1:] + l2)
+
+
+@lemma(props=["C03"], types=dict(l1=Violations, l2=Violations, x=ViolationT), name="v-same-file-cover-survives-prepending")
+def v_cover_concat(l1, l2, x):
+    return (len(l1) == 0 or (ih(v_cover_concat, l1[1:], l2, x) and use(v_concat_head_tail, l1, l2))) and \
+        implies(v_same_file_cover(x, l2), v_same_file_cover(x, l1 + l2))
+
+
+@lemma(props=["C03"], types=dict(blocks=Violations, groups=ViolationGroups, x=ViolationT), name="v-every-block-has-its-file-group")
+def every_violation_has_group(blocks, groups, x):
+    return (len(blocks) == 0 or (ih(every_violation_has_group, blocks[1:], groups, x) and use(v_member_head_tail, blocks, x))) and \
+        implies(all(vhas_group(groups, v) for v in blocks) and x in blocks, vhas_group(groups, x))
+
+
+def vdedup_of_groups(groups):
+    return vdedup_groups(list(groups.values()))
+
+
+@opaque
+def vdedup_pairs(groups: ViolationGroups) -> Violations:
+    """vdedup_of_groups as a fold over the (path, blocks) entries."""
+    if len(groups) == 0:
+        return []
+    return per_file_violations(groups[0][1]) + vdedup_pairs(groups[1:])
+
+
+@opaque
+def vgroups_okp(groups: ViolationGroups, blocks: Violations) -> Bool:
+    """vgroups_ok as a fold."""
+    return len(groups) == 0 or (groups[0][1] == [v for v in blocks if v.file_path == groups[0][0]]
+                                and vgroups_okp(groups[1:], blocks))
+
+
+@opaque
+def vhas_groupp(groups: ViolationGroups, x: ViolationT) -> Bool:
+    """vhas_group as a fold."""
+    return len(groups) > 0 and (groups[0][0] == x.file_path or vhas_groupp(groups[1:], x))
+
+
+@lemma(props=["C03"], types=dict(groups=ViolationGroups), name="v-values-head-tail")
+def v_values_head_tail(groups):
+    return implies(len(groups) > 0, list(groups.values())[0] == groups[0][1]
+                   and list(groups.values())[1:] == list(groups[1:].values()))
+
+
+@lemma(props=["C03"], types=dict(groups=ViolationGroups), name="v-dedup-groups-is-a-fold-over-entries")
+def vdedup_pairs_bridge(groups):
+    reveal(vdedup_pairs, groups)
+    reveal(vdedup_groups, list(groups.values()))
+    return (len(groups) == 0 or (ih(vdedup_pairs_bridge, groups[1:]) and use(v_values_head_tail, groups))) and \
+        vdedup_of_groups(groups) == vdedup_pairs(groups)
+
+
+@lemma(props=["C03"], types=dict(groups=ViolationGroups, blocks=Violations), name="v-groups-ok-is-a-fold")
+def vgroups_ok_bridge(groups, blocks):
+    reveal(vgroups_okp, groups, blocks)
+    return (len(groups) == 0 or ih(vgroups_ok_bridge, groups[1:], blocks)) and \
+        implies(vgroups_ok(groups, blocks), vgroups_okp(groups, blocks))
+
+
+@lemma(props=["C03"], types=dict(groups=ViolationGroups, x=ViolationT), name="v-has-group-is-a-fold")
+def vhas_group_bridge(groups, x):
+    reveal(vhas_groupp, groups, x)
+    return (len(groups) == 0 or ih(vhas_group_bridge, groups[1:], x)) and \
+        implies(vhas_group(groups, x), vhas_groupp(groups, x))
+
+
+@lemma(props=["C03"], types=dict(a=Violations, b=Violations, y=ViolationT), name="v-member-concat")
+def v_member_concat(a, b, y):
+    return (y in a + b) == (y in a or y in b)
+
+
+@lemma(props=["C03"], types=dict(groups=ViolationGroups, blocks=Violations, y=ViolationT), name="v-dedup-across-files-keeps-only-input-blocks")
+def vdedup_sound(groups, blocks, y):
+    reveal(vdedup_pairs, groups)
+    reveal(vgroups_okp, groups, blocks)
+    if len(groups) == 0:
+        return implies(vgroups_okp(groups, blocks) and y in vdedup_pairs(groups), y in blocks)
+    ih(vdedup_sound, groups[1:], blocks, y)
+    use(v_member_concat, per_file_violations(groups[0][1]), vdedup_pairs(groups[1:]), y)
+    use(vgreedy_members, sorted(groups[0][1], key=lambda v: v.line or 0), [], y)
+    sorted_member_fact(groups[0][1], y, key=lambda v: v.line or 0)
+    use(v_file_filter_membership, blocks, groups[0][0], y)
+    return implies(vgroups_okp(groups, blocks) and y in vdedup_pairs(groups), y in blocks)
+
+
+@lemma(props=["C03"], types=dict(l1=Violations, l2=Violations, x=ViolationT), name="v-same-file-cover-survives-appending")
+def v_cover_concat_left(l1, l2, x):
+    return (len(l1) == 0 or (ih(v_cover_concat_left, l1[1:], l2, x) and use(v_concat_head_tail, l1, l2))) and \
+        implies(v_same_file_cover(x, l1), v_same_file_cover(x, l1 + l2))
+
+
+@lemma(props=["C03"], types=dict(g=Violations, blocks=Violations, k=Str, x=ViolationT), name="v-file-group-selection-covers-its-blocks")
+def v_group_cover(g, blocks, k, x):
+    """One file: if g is exactly the blocks of file k, every block of that file is selected or shares a line with a
+    selected block of the same file."""
+    use(v_file_filter_membership, blocks, k, x)
+    sorted_member_fact(g, x, key=lambda v: v.line or 0)
+    use(vgreedy_maximal, sorted(g, key=lambda v: v.line or 0), [], x)
+    use(v_overlap_witness, per_file_violations(g), x)
+    use(vgreedy_members, sorted(g, key=lambda v: v.line or 0), [], v_first_hit(per_file_violations(g), x))
+    sorted_member_fact(g, v_first_hit(per_file_violations(g), x), key=lambda v: v.line or 0)
+    use(v_file_filter_membership, blocks, k, v_first_hit(per_file_violations(g), x))
+    use(v_cover_from_witness, per_file_violations(g), x, v_first_hit(per_file_violations(g), x))
+    return implies(g == [v for v in blocks if v.file_path == k] and x in blocks and x.file_path == k,
+                   x in per_file_violations(g) or v_same_file_cover(x, per_file_violations(g)))
+
+
+@lemma(props=["C03"], types=dict(g=Violations, k=Str, tail=ViolationGroups, blocks=Violations, x=ViolationT), name="v-dedup-cover-step")
+def vdedup_cover_step(g, k, tail, blocks, x):
+    """One step of the fold: the head group covers the blocks of its own file, the tail's cover is kept."""
+    use(v_group_cover, g, blocks, k, x)
+    use(v_member_concat, per_file_violations(g), vdedup_pairs(tail), x)
+    use(v_cover_concat_left, per_file_violations(g), vdedup_pairs(tail), x)
+    use(v_cover_concat, per_file_violations(g), vdedup_pairs(tail), x)
+    return implies(g == [v for v in blocks if v.file_path == k] and x in blocks
+                   and (k == x.file_path or x in vdedup_pairs(tail) or v_same_file_cover(x, vdedup_pairs(tail))),
+                   x in per_file_violations(g) + vdedup_pairs(tail) or v_same_file_cover(x, per_file_violations(g) + vdedup_pairs(tail)))
+
+
+@lemma(props=["C03"], types=dict(groups=ViolationGroups, blocks=Violations, x=ViolationT), name="v-dedup-across-files-covers-every-block")
+def vdedup_cover(groups, blocks, x):
+    reveal(vdedup_pairs, groups)
+    reveal(vgroups_okp, groups, blocks)
+    reveal(vhas_groupp, groups, x)
+    if len(groups) == 0:
+        return not vhas_groupp(groups, x)
+    ih(vdedup_cover, groups[1:], blocks, x)
+    use(vdedup_cover_step, groups[0][1], groups[0][0], groups[1:], blocks, x)
+    return implies(vgroups_okp(groups, blocks) and x in blocks and vhas_groupp(groups, x),
+                   x in vdedup_pairs(groups) or v_same_file_cover(x, vdedup_pairs(groups)))
+
+
+@lemma(props=["C03"], types=dict(blocks=Violations, x=ViolationT), name="deduplicate-violations-sound-and-code-covering")
+def deduplicate_violations_property(blocks, x):
+    """Finding-adjusted, violation level, all files: deduplicate_violations returns only input violations, and an input
+    violation is dropped only because a returned violation OF THE SAME FILE stands in the code's overlap relation to it
+    (x.line < kept.line + x's own line count, finding C03-violation-overlap-length); nothing else is ever dropped."""
+    r = call(D + "deduplicate_violations", mk(DedupT), blocks)
+    g = call(BG + "group_violations_by_file", mk(GrouperT), blocks)
+    reveal(vdedup_groups, [])
+    use(vdedup_pairs_bridge, g)
+    use(vgroups_ok_bridge, g, blocks)
+    use(vhas_group_bridge, g, x)
+    use(vdedup_sound, g, blocks, x)
+    use(vdedup_cover, g, blocks, x)
+    use(every_violation_has_group, blocks, g, x)
+    return implies(x in r, x in blocks) and implies(x in blocks, x in r or v_same_file_cover(x, r))
